@@ -120,8 +120,11 @@ def run_property(prop_id, tier='quick', seed=0, repo=None, config='default', qui
                 octx.rules.setdefault('ANCHOR', 'enforcing construct exists')
                 octx.obs.append(dict(rule='ANCHOR', key=f'rule evaluation aborted|{type(e).__name__}', ok=False,
                                      what=f'rule evaluation of {other} aborted: {e}', site=None, detail=None))
+            # an entry is a rule id, or 'rule~regex' selecting the instances of that rule whose key matches the regex
+            plain = {r for r in rids if '~' not in r}
+            keyed = [(r.split('~', 1)[0], re.compile(r.split('~', 1)[1])) for r in rids if '~' in r]
             for o in octx.obs:
-                if o['rule'] in rids or (o['rule'] == 'ANCHOR' and not o['ok']):
+                if o['rule'] in plain or any(o['rule'] == r_ and x_.search(o['key']) for r_, x_ in keyed) or (o['rule'] == 'ANCHOR' and not o['ok']):
                     nr = f'{other}.{o["rule"]}'
                     ctx.rules[nr] = f'[shared with {other}] ' + octx.rules.get(o['rule'], '')
                     o2 = dict(o, rule=nr)
